@@ -557,7 +557,9 @@ fn nz_scalar(b: &[u8]) -> Option<Scalar> {
     };
     assert!(r.is_some() == exp);
     if let Some(x) = r {
-        assert!(seq(x.ident, i.unwrap()) && seq(x.hiding, h.unwrap()) && seq(x.binding, k.unwrap()));
+        assert!(seq(x.ident, i.unwrap()));
+        assert!(seq(x.hiding, h.unwrap()));
+        assert!(seq(x.binding, k.unwrap()));
         assert!(bytes_eq(&x.encode(), &b));
     }
     kani::cover!(r.is_some());
@@ -653,7 +655,9 @@ fn nz_scalar(b: &[u8]) -> Option<Scalar> {
     };
     assert!(r.is_some() == exp);
     if let Some(x) = r {
-        assert!(seq(x.ident, i.unwrap()) && peq(x.hiding, h.unwrap()) && peq(x.binding, k.unwrap()));
+        assert!(seq(x.ident, i.unwrap()));
+        assert!(peq(x.hiding, h.unwrap()));
+        assert!(peq(x.binding, k.unwrap()));
         assert!(bytes_eq(&x.encode(), &b));
         assert!(!x.is_invalid());
     }
@@ -691,7 +695,8 @@ fn nz_scalar(b: &[u8]) -> Option<Scalar> {
     if let Some(x) = r {
         let g = g.unwrap();
         assert!(seq(x.ident, i.unwrap()) && seq(x.sk, s.unwrap()));
-        assert!(peq(x.group_pk.pk, g.pk) && bytes_eq(&x.group_pk.pk_enc, &g.pk_enc));
+        assert!(peq(x.group_pk.pk, g.pk));
+        assert!(bytes_eq(&x.group_pk.pk_enc, &g.pk_enc));
         assert!(peq(x.pk, Point::mulgen(&x.sk)));
         assert!(bytes_eq(&x.encode(), &b));
         let sp = x.get_public_key();
@@ -716,11 +721,14 @@ fn nz_scalar(b: &[u8]) -> Option<Scalar> {
     let es1 = scalar_encode(s1);
     let es3 = scalar_encode(s3);
     // the scalar codec itself round-trips on these values (stub contract / native fact)
-    assert!(bytes_eq(&eid, &b[0..NS]) && bytes_eq(&es3, &b[2 * NS..3 * NS]));
+    assert!(bytes_eq(&eid, &b[0..NS]));
+    assert!(bytes_eq(&es3, &b[2 * NS..3 * NS]));
     {
         let x = Nonce { ident: id, hiding: s1, binding: s3 };
         let e = x.encode();
-        assert!(bytes_eq(&e[0..NS], &eid) && bytes_eq(&e[NS..2 * NS], &es1) && bytes_eq(&e[2 * NS..3 * NS], &es3));
+        assert!(bytes_eq(&e[0..NS], &eid));
+        assert!(bytes_eq(&e[NS..2 * NS], &es1));
+        assert!(bytes_eq(&e[2 * NS..3 * NS], &es3));
         let y = Nonce::decode(&e).unwrap();
         assert!(seq(y.ident, id) && seq(y.hiding, s1) && seq(y.binding, s3));
     }
@@ -762,8 +770,9 @@ fn nz_scalar(b: &[u8]) -> Option<Scalar> {
     {
         let x = Commitment { ident: id, hiding: p1, binding: p2 };
         let e = x.encode();
-        assert!(bytes_eq(&e[0..NS], &eid) && bytes_eq(&e[NS..NS + NE], &ep1)
-            && bytes_eq(&e[NS + NE..NS + 2 * NE], &ep2));
+        assert!(bytes_eq(&e[0..NS], &eid));
+        assert!(bytes_eq(&e[NS..NS + NE], &ep1));
+        assert!(bytes_eq(&e[NS + NE..NS + 2 * NE], &ep2));
         let y = Commitment::decode(&e).unwrap();
         assert!(seq(y.ident, id) && peq(y.hiding, p1) && peq(y.binding, p2));
     }
@@ -800,8 +809,9 @@ fn nz_scalar(b: &[u8]) -> Option<Scalar> {
     {
         let x = SignerPrivateKeyShare { ident: id, sk: s2, pk: p2, group_pk: gpk };
         let e = x.encode();
-        assert!(bytes_eq(&e[0..NS], &eid) && bytes_eq(&e[NS..2 * NS], &scalar_encode(s2))
-            && bytes_eq(&e[2 * NS..2 * NS + NE], &ep1));
+        assert!(bytes_eq(&e[0..NS], &eid));
+        assert!(bytes_eq(&e[NS..2 * NS], &scalar_encode(s2)));
+        assert!(bytes_eq(&e[2 * NS..2 * NS + NE], &ep1));
         let y = SignerPrivateKeyShare::decode(&e).unwrap();
         assert!(seq(y.ident, id) && seq(y.sk, s2) && peq(y.pk, p2));
         assert!(peq(y.group_pk.pk, p1) && bytes_eq(&y.group_pk.pk_enc, &ep1));
@@ -834,10 +844,14 @@ macro_rules! len_sweep {
     len_sweep!(SignatureShare, b);
     len_sweep!(Nonce, b);
     // the ENC_LEN constants are the ones of the FROST draft
-    assert!(GroupPrivateKey::ENC_LEN == NS && GroupPublicKey::ENC_LEN == NE
-        && SignerPrivateKeyShare::ENC_LEN == 2 * NS + NE && SignerPublicKey::ENC_LEN == NS + NE
-        && Nonce::ENC_LEN == 3 * NS && Commitment::ENC_LEN == NS + 2 * NE
-        && SignatureShare::ENC_LEN == 2 * NS && Signature::ENC_LEN == NE + NS);
+    assert!(GroupPrivateKey::ENC_LEN == NS);
+    assert!(GroupPublicKey::ENC_LEN == NE);
+    assert!(SignerPrivateKeyShare::ENC_LEN == 2 * NS + NE);
+    assert!(SignerPublicKey::ENC_LEN == NS + NE);
+    assert!(Nonce::ENC_LEN == 3 * NS);
+    assert!(Commitment::ENC_LEN == NS + 2 * NE);
+    assert!(SignatureShare::ENC_LEN == 2 * NS);
+    assert!(Signature::ENC_LEN == NE + NS);
 }
 
 //@harness verif_frost_@S@_lengths_b 180
@@ -919,8 +933,9 @@ fn wire_canonical(b: &[u8]) -> bool {
     let s0 = scalar_decode(b0);
     let s1 = scalar_decode(b1);
     assert!(s0.is_some() == wire_canonical(b0));
-    assert!(scalar_decode(&b[..NS - 1]).is_none() && scalar_decode(&b[..NS + 1]).is_none()
-        && scalar_decode(&b[..0]).is_none());
+    assert!(scalar_decode(&b[..NS - 1]).is_none());
+    assert!(scalar_decode(&b[..NS + 1]).is_none());
+    assert!(scalar_decode(&b[..0]).is_none());
     if let (Some(x0), Some(x1)) = (s0, s1) {
         assert!(bytes_eq(&scalar_encode(x0), b0));
         let c = scalar_cmp_vartime(x0, x1);
@@ -935,7 +950,8 @@ fn wire_canonical(b: &[u8]) -> bool {
     let pe = point_encode(p);
     let q = point_decode(&pe);
     assert!(q.is_some() && peq(q.unwrap(), p));
-    assert!(point_decode(&pe[..NE - 1]).is_none() && point_decode(&pe[..0]).is_none());
+    assert!(point_decode(&pe[..NE - 1]).is_none());
+    assert!(point_decode(&pe[..0]).is_none());
     let mut pl = [0u8; NE + 1];
     pl[..NE].copy_from_slice(&pe);
     assert!(point_decode(&pl).is_none());
@@ -978,8 +994,12 @@ fn put_comm(dst: &mut [u8], id: &[u8], pe0: &[u8; NE], pe1: &[u8; NE]) {
     assert!(r.is_some() == exp);
     if let Some(ref v) = r {
         assert!(v.len() == 2);
-        assert!(seq(v[0].ident, i0.unwrap()) && peq(v[0].hiding, p0) && peq(v[0].binding, p1));
-        assert!(seq(v[1].ident, i1.unwrap()) && peq(v[1].hiding, p1) && peq(v[1].binding, p0));
+        assert!(seq(v[0].ident, i0.unwrap()));
+        assert!(peq(v[0].hiding, p0));
+        assert!(peq(v[0].binding, p1));
+        assert!(seq(v[1].ident, i1.unwrap()));
+        assert!(peq(v[1].hiding, p1));
+        assert!(peq(v[1].binding, p0));
     }
     kani::cover!(r.is_some());
     kani::cover!(r.is_none() && i0.is_some() && i1.is_some());
@@ -1007,7 +1027,9 @@ fn put_comm(dst: &mut [u8], id: &[u8], pe0: &[u8; NE], pe1: &[u8; NE]) {
     assert!(r.is_some() == exp);
     if let Some(ref v) = r {
         assert!(v.len() == 3);
-        assert!(seq(v[0].ident, i0.unwrap()) && seq(v[1].ident, i1.unwrap()) && seq(v[2].ident, i2.unwrap()));
+        assert!(seq(v[0].ident, i0.unwrap()));
+        assert!(seq(v[1].ident, i1.unwrap()));
+        assert!(seq(v[2].ident, i2.unwrap()));
         assert!(peq(v[2].hiding, p0) && peq(v[2].binding, p0));
         let e = Commitment::encode_list(&[v[0], v[1], v[2]]);
         assert!(e.len() == 3 * CL && bytes_eq(&e, &b));
@@ -1062,7 +1084,9 @@ fn put_comm(dst: &mut [u8], id: &[u8], pe0: &[u8; NE], pe1: &[u8; NE]) {
         assert!(r.is_some() == (p0.is_some() && p1.is_some() && p2.is_some()));
         if let Some(ref v) = r {
             assert!(v.len() == 3);
-            assert!(peq(v[0].0, p0.unwrap()) && peq(v[1].0, p1.unwrap()) && peq(v[2].0, p2.unwrap()));
+            assert!(peq(v[0].0, p0.unwrap()));
+            assert!(peq(v[1].0, p1.unwrap()));
+            assert!(peq(v[2].0, p2.unwrap()));
             assert!(bytes_eq(&VSSElement::encode_list(&[v[0], v[1], v[2]]), &b[..3 * NE]));
         }
         kani::cover!(r.is_some());
@@ -1088,12 +1112,16 @@ fn put_comm(dst: &mut [u8], id: &[u8], pe0: &[u8; NE], pe1: &[u8; NE]) {
     {
         let e = Commitment::encode_list(&l);
         assert!(e.len() == 2 * CL);
-        assert!(bytes_eq(&e[..CL], &l[0].encode()) && bytes_eq(&e[CL..], &l[1].encode()));
+        assert!(bytes_eq(&e[..CL], &l[0].encode()));
+        assert!(bytes_eq(&e[CL..], &l[1].encode()));
         let r = Commitment::decode_list(&e);
         assert!(r.is_some() == asc01);
         if let Some(ref v) = r {
             assert!(v.len() == 2 && seq(v[0].ident, i0) && seq(v[1].ident, i1));
-            assert!(peq(v[0].hiding, p0) && peq(v[0].binding, p1) && peq(v[1].hiding, p1) && peq(v[1].binding, p0));
+            assert!(peq(v[0].hiding, p0));
+            assert!(peq(v[0].binding, p1));
+            assert!(peq(v[1].hiding, p1));
+            assert!(peq(v[1].binding, p0));
         }
         kani::cover!(r.is_some());
         kani::cover!(r.is_none());
@@ -1102,7 +1130,8 @@ fn put_comm(dst: &mut [u8], id: &[u8], pe0: &[u8; NE], pe1: &[u8; NE]) {
         let vl = [VSSElement(p0), VSSElement(p1)];
         let e = VSSElement::encode_list(&vl);
         assert!(e.len() == 2 * NE);
-        assert!(bytes_eq(&e[..NE], &point_encode(p0)) && bytes_eq(&e[NE..], &point_encode(p1)));
+        assert!(bytes_eq(&e[..NE], &point_encode(p0)));
+        assert!(bytes_eq(&e[NE..], &point_encode(p1)));
         let v = VSSElement::decode_list(&e).unwrap();
         assert!(v.len() == 2 && peq(v[0].0, p0) && peq(v[1].0, p1));
     }
@@ -1210,7 +1239,8 @@ fn mk_gpk(p: Point) -> GroupPublicKey {
     if !have_ss || !have_pk {
         assert!(r.is_none());
     }
-    assert!(Coordinator::new(0, mk_gpk(p)).is_none() && Coordinator::new(1, mk_gpk(p)).is_none());
+    assert!(Coordinator::new(0, mk_gpk(p)).is_none());
+    assert!(Coordinator::new(1, mk_gpk(p)).is_none());
 }
 
 // assemble_signature with an arbitrary list of two commitments.
